@@ -19,11 +19,7 @@ use varpro::prelude::SeparableNonlinearModel;
 
 pub fn generate(seed: u64, index: u64, thorough: bool) -> Scenario {
     let mut rng = Rng::new(mix(seed, "C17", index));
-    let sizes = if rng.chance(if thorough { 0.4 } else { 0.2 }) {
-        LARGE
-    } else {
-        SMALL
-    };
+    let sizes = pick_sizes(&mut rng, thorough, if thorough { 0.4 } else { 0.2 });
     let (mut sc, d) = base_scenario(
         &mut rng,
         "C17",
